@@ -36,7 +36,7 @@ REQUIRED_LABELS = {"mix:symbolic+numeric": 0.15, "dropped-blade": 0.01, "form:st
 
 
 def budget(tier):
-    n = int(os.environ.get("KV_EXAMPLES", 0)) or (4800 if tier == "quick" else 30000)
+    n = int(os.environ.get("KV_EXAMPLES", 0)) or (7200 if tier == "quick" else 30000)
     return {"examples": n, "shards": 16, "wall": 100 if tier == "quick" else 1200}
 
 
